@@ -506,6 +506,21 @@ func c18(r *ev.Run) {
 			}
 		}
 	}
+	// field carry-over: a "maximal" request (every optional field set to a non-default value)
+	// followed by a "minimal" one (optional fields omitted) whose answer differs between the
+	// documented default and the previous request's value; all ordered pairs, across endpoints
+	co := carryOver()
+	for _, a := range co {
+		for _, b := range co {
+			for _, reuse := range []bool{false, true} {
+				seq(c18Case{[]rreq{a, b}, reuse})
+				if reuse {
+					seq(c18Case{[]rreq{a, a, b, b}, reuse})
+				}
+			}
+		}
+	}
+	r.Set("carry_over_requests", len(co))
 	core := classes
 	if len(core) > 14 {
 		core = nil
@@ -672,4 +687,37 @@ func runRestSchedule(sc restScen, x *xplore.X) (obs, bad string) {
 		}
 	}
 	return obs, ""
+}
+
+// carryOver builds maximal and minimal requests per endpoint (see the history exploration).
+func carryOver() []rreq {
+	u := ref.B32Encode(restKey)
+	post := func(path string, f map[string]any) rreq { return rreq{Method: "POST", Path: path, Fields: f} }
+	long, short := longShape(), shape{Hash: 0, Digits: 6, Q: true, QF: 1}
+	long.Text = ""
+	return []rreq{
+		post("/hotp/validate", map[string]any{"secret": u, "code": ref.HOTP(restKey, 5, 8, 2), "counter": 5, "skew": 10, "digits": "8", "algorithm": "SHA512"}),
+		post("/hotp/validate", map[string]any{"secret": u, "code": ref.HOTP(restKey, 7, 6, 0)}),             // counter omitted (0), skew omitted (0): distance 7 => false
+		post("/hotp/validate", map[string]any{"secret": u, "code": ref.HOTP(restKey, 7, 6, 0), "counter": 5}), // skew omitted: distance 2 => false
+		post("/hotp/validate", map[string]any{"secret": u, "code": ref.HOTP(restKey, 5, 6, 0), "counter": 5}), // digits/algorithm omitted => true
+		post("/totp/validate", map[string]any{"secret": u, "code": ref.HOTP(restKey, ref.Step(1111111109, 60), 10, 1), "timestamp": 1111111109, "period": 60, "skew": 9, "digits": "10", "algorithm": "SHA256"}),
+		post("/totp/validate", map[string]any{"secret": u, "code": ref.HOTP(restKey, ref.Step(1111111109, 30)+1, 6, 0), "timestamp": 1111111109}), // skew omitted => false
+		post("/totp/validate", map[string]any{"secret": u, "code": ref.HOTP(restKey, ref.Step(1111111109, 30), 6, 0), "timestamp": 1111111109}),   // period omitted (30) => true
+		post("/hotp/generate", map[string]any{"secret": u, "counter": 9, "digits": "8", "algorithm": "SHA256"}),
+		post("/hotp/generate", map[string]any{"secret": u}),
+		post("/totp/generate", map[string]any{"secret": u, "timestamp": 1111111109, "period": 60, "digits": "10", "algorithm": "SHA512"}),
+		post("/totp/generate", map[string]any{"secret": u, "timestamp": 59}),
+		post("/ocra/generate", map[string]any{"secret": u, "suite": structuredSuite(long), "input": ocraInputFor(long, 4)}),
+		post("/ocra/generate", map[string]any{"secret": u, "raw_suite": "OCRA-1:HOTP-SHA1-6:QN08", "input": ocraInputFor(short, 2)}),
+		post("/ocra/generate", map[string]any{"secret": u, "suite": structuredSuite(short), "input": ocraInputFor(short, 1)}),
+		post("/ocra/validate", map[string]any{"secret": u, "suite": structuredSuite(long), "input": ocraInputFor(long, 4), "code": ref.OCRA(restKey, long.ref(), admissible(long, 4).ref())}),
+		post("/ocra/validate", map[string]any{"secret": u, "raw_suite": "OCRA-1:HOTP-SHA1-6:QN08", "input": ocraInputFor(short, 2), "code": ref.OCRA(restKey, shortShape().ref(), admissible(short, 2).ref())}),
+		post("/otp/url", map[string]any{"type": "totp", "secret": "JBSWY3DPEHPK3PXP", "issuer": "My Company", "account_name": "a b", "period": 60, "digits": "8", "algorithm": "SHA512"}),
+		post("/otp/url", map[string]any{"type": "hotp", "secret": "JBSWY3DPEHPK3PXP", "issuer": "I", "account_name": "a"}),
+		post("/otp/url", map[string]any{"type": "totp", "secret": "JBSWY3DPEHPK3PXP", "issuer": "I", "account_name": "a"}),
+		post("/ocra/suite", map[string]any{"raw_suite": "OCRA-1:HOTP-SHA512-8:C-QH10-PSHA512-S-T1"}),
+		post("/ocra/suite", map[string]any{"raw_suite": "OCRA-1:HOTP-SHA1-6:C"}),
+		{Method: "GET", Path: "/otp/secret", Query: "algorithm=SHA512"},
+		{Method: "GET", Path: "/otp/secret"},
+	}
 }
